@@ -5,8 +5,9 @@
 //   rs  seed N lin circ quat w_0..w_{N-1}  -> Resampling::resample / neff on a set with distinct columns
 //   rwp seed N lin circ quat ratio w_0..   -> ResamplingWithPrior::resample with a deterministic initialiser
 //   seq seed kind ratio ncalls (N lin circ quat w..) x ncalls -> ONE resampling object serving successive calls of different sizes
+//   pipe seedR seedM seedT K nx ny surv sigma q -> the shipped test_SIS pipeline end to end
 //   glik scale fail m N y P R              -> GaussianLikelihood::likelihood on a measurement model whose calls can fail
-//   sis seed N lin circ K D prior ratio u.. w.. x.. (cmd freeze valid l_0..l_{N-1}) x K
+//   sis seed N lin circ K D prior ratio u.. E (w0.. x0..) x E (ncmd cmd.. freeze valid reset shift l_0..l_{N-1}) x K
 //                                          -> the real SIS filter thread, scripted models, K steps
 //
 // The draw `u1` is obtained from a twin generator (same seed, same distribution) run in lock-step.
@@ -22,6 +23,10 @@
 #include <BayesFilters/MeasurementModel.h>
 #include <BayesFilters/LikelihoodModel.h>
 #include <BayesFilters/GaussianLikelihood.h>
+#include <BayesFilters/InitSurveillanceAreaGrid.h>
+#include <BayesFilters/WhiteNoiseAcceleration.h>
+#include <BayesFilters/SimulatedStateModel.h>
+#include <BayesFilters/SimulatedLinearSensor.h>
 #include <BayesFilters/any.h>
 #include <BayesFilters/utils.h>
 #include <cmath>
@@ -90,6 +95,7 @@ static std::string rs_call(Resampling& r, std::mt19937_64& twin, long n, long li
     double u1 = twin_u1(twin, n);
     double ne = r.neff(cor.weight());
     r.resample(cor, res, par);
+    double ne2 = r.neff(cor.weight());                             // queried again after the call: the answers must agree
     Out o; o.s("ok");
     o.s((u1 > 0.0 && u1 < 1.0 / n) ? "u1-in-range" : "u1-out-of-range").d(u1);
     for (long i = 0; i < n; ++i) o.d(std::exp(w(i)));           // exp as computed by libm, as the code does
@@ -104,6 +110,7 @@ static std::string rs_call(Resampling& r, std::mt19937_64& twin, long n, long li
                 vh::same_bits(cor.covariance(), cor0.covariance()) && vh::same_bits(cor.weight(), cor0.weight());
     o.s(same ? "in-same" : "in-modified");
     out_shape(o, res);
+    o.s(vh::hx(ne) == vh::hx(ne2) ? "neff-same" : "neff-differs");
     return o.str();
 }
 
@@ -235,9 +242,10 @@ static std::string op_seq(Toks& t) {
 
 struct Script {
     long N = 0, K = 0;
-    std::vector<int> cmd; std::vector<bool> freeze, valid; std::vector<VectorXd> lik;
-    VectorXd w0, x0;
-    long step = 0;           // step being executed (set by the filter subclass)
+    std::vector<std::vector<int>> cmds; std::vector<bool> freeze, valid, reset; std::vector<double> shift; std::vector<VectorXd> lik;
+    std::vector<VectorXd> w0s, x0s;   // initial weights / first state rows, one pair per epoch (cycled)
+    long epoch = 0;          // number of initialisations done so far
+    long step = 0;           // global index of the step being executed (set by the filter subclass)
     long freeze_calls = 0, lik_calls = 0, motion_calls = 0;
 };
 
@@ -245,8 +253,9 @@ struct SInit : public ParticleSetInitialization {
     explicit SInit(Script* s) : s_(s) {}
     bool initialize(ParticleSet& p) override {
         for (long i = 0; i < (long)p.state().cols(); ++i)
-            for (long r = 0; r < p.state().rows(); ++r) p.state()(r, i) = s_->x0(i) + 0.001953125 * r;
-        p.weight() = s_->w0;
+            for (long r = 0; r < p.state().rows(); ++r) p.state()(r, i) = s_->x0s[s_->epoch % s_->x0s.size()](i) + 0.001953125 * r;
+        p.weight() = s_->w0s[s_->epoch % s_->w0s.size()];
+        ++s_->epoch;
         return true;
     }
     Script* s_;
@@ -255,7 +264,7 @@ struct SInit : public ParticleSetInitialization {
 struct SState : public StateModel {
     SState(Script* s, long lin, long circ) : s_(s), lin_(lin), circ_(circ) {}
     void propagate(const Ref<const MatrixXd>& cur, Ref<MatrixXd> prop) override { prop = cur.array() + 1.0; }
-    void motion(const Ref<const MatrixXd>& cur, Ref<MatrixXd> mot) override { ++s_->motion_calls; mot = cur.array() + 1.0; }
+    void motion(const Ref<const MatrixXd>& cur, Ref<MatrixXd> mot) override { ++s_->motion_calls; mot = cur.array() + s_->shift[s_->step]; }   // time-varying
     bool setProperty(const std::string&) override { return false; }
     VectorDescription getInputDescription() override { return VectorDescription(lin_, circ_); }
     VectorDescription getStateDescription() override { return VectorDescription(lin_, circ_); }
@@ -337,11 +346,16 @@ struct SSIS : public SIS {
     SSIS(Script* s, ResLog* log, unsigned int n, std::size_t lin, std::size_t circ,
          std::unique_ptr<ParticleSetInitialization> i, std::unique_ptr<PFPrediction> p, std::unique_ptr<PFCorrection> c, std::unique_ptr<Resampling> r)
         : SIS(n, lin, circ, std::move(i), std::move(p), std::move(c), std::move(r)), s_(s), log_(log) {}
-    bool run_condition() override { return static_cast<long>(step_number()) < s_->K; }
+    bool run_condition() override { return g_ < s_->K; }
+    void log() override {                // called by filtering_step() after the normalisation, before the resampling decision
+        ++log_calls_;
+        lw_.assign(cor_particle_.weight().data(), cor_particle_.weight().data() + cor_particle_.weight().size());
+        SIS::log();
+    }
     void filtering_step() override {
-        long k = step_number();
+        long k = g_;
         s_->step = k;
-        switch (s_->cmd[k]) {            // skip commands issued between the previous step and this one
+        for (int cmd : s_->cmds[k]) switch (cmd) {     // skip commands issued between the previous step and this one
             case 1: skip_ok_ &= skip("prediction", true); break;
             case 2: skip_ok_ &= skip("prediction", false); break;
             case 3: skip_ok_ &= skip("correction", true); break;
@@ -350,7 +364,8 @@ struct SSIS : public SIS {
             case 6: skip_ok_ &= skip("all", false); break;
             default: break;
         }
-        *log_ = ResLog();
+        *log_ = ResLog(); log_calls_ = 0; lw_.clear();
+        long stepno = step_number();
         SIS::filtering_step();
         // observables after the step
         Out o; o.s("S");
@@ -361,6 +376,7 @@ struct SSIS : public SIS {
         o.n(log_->parents.size()); for (int q : log_->parents) o.n(q);
         for (long i = 0; i < c.weight().rows(); ++i) o.d(c.weight()(i));
         for (long i = 0; i < c.state().cols(); ++i) o.d(c.state().rows() ? c.state()(0, i) : 0.0);
+        o.s("L").n(lw_.size()); for (double v : lw_) o.d(v);        // corrected weights as seen by log()
         // extra facts (not part of the model's output block): storage rows, draw used, row pattern of the states
         bool rows_ok = true;
         for (long i = 0; i < c.state().cols(); ++i)
@@ -393,9 +409,13 @@ struct SSIS : public SIS {
         o.n(log_->cs.size()); for (double v : log_->cs) o.d(v);
         o.n(p.weight().rows()); for (long i = 0; i < p.weight().rows(); ++i) o.d(p.weight()(i));
         o.n(p.state().cols()); for (long i = 0; i < p.state().cols(); ++i) o.d(p.state().rows() ? p.state()(0, i) : 0.0);
+        o.n(stepno).n(log_calls_);
         blocks.push_back(o.str());
+        if (s_->reset[k]) reset();       // a reset command arrives during this step: the recursion re-initialises before the next one
+        ++g_;
     }
     Script* s_; ResLog* log_; bool skip_ok_ = true, copies_ok_ = true, prior_ = false; std::vector<std::string> blocks;
+    long g_ = 0, log_calls_ = 0; std::vector<double> lw_;
 };
 
 static std::string op_sis(Toks& t) {
@@ -406,9 +426,12 @@ static std::string op_sis(Toks& t) {
     if (m < 1) throw vh::BadArgs("ratio");
     sc.N = n; sc.K = K;
     VectorXd us = t.vec(D);
-    sc.w0 = t.vec(n); sc.x0 = t.vec(n);
+    long E = t.nat(); if (E < 1) throw vh::BadArgs("epochs");
+    for (long e = 0; e < E; ++e) { sc.w0s.push_back(t.vec(n)); sc.x0s.push_back(t.vec(n)); }
     for (long k = 0; k < K; ++k) {
-        sc.cmd.push_back((int)t.nat()); sc.freeze.push_back(t.flag()); sc.valid.push_back(t.flag()); sc.lik.push_back(t.vec(n));
+        long nc = t.nat(); std::vector<int> cs; for (long i = 0; i < nc; ++i) cs.push_back((int)t.nat());
+        sc.cmds.push_back(cs); sc.freeze.push_back(t.flag()); sc.valid.push_back(t.flag()); sc.reset.push_back(t.flag()); sc.shift.push_back(t.dbl());
+        sc.lik.push_back(t.vec(n));
     }
     t.done();
     // the draws handed to the model are the twin generator's
@@ -429,6 +452,79 @@ static std::string op_sis(Toks& t) {
     o.n(f.blocks.size());
     for (auto& b : f.blocks) o.s(b);
     o.s("C").n(sc.freeze_calls).n(sc.lik_calls).n(sc.motion_calls);
+    return o.str();
+}
+
+// ----------------------------------------------------------------------------- pipe
+// The shipped pipeline of test_SIS run end to end: InitSurveillanceAreaGrid, DrawParticles over WhiteNoiseAcceleration,
+// BootstrapCorrection over SimulatedLinearSensor(SimulatedStateModel(WhiteNoiseAcceleration)) and GaussianLikelihood,
+// Resampling (logging subclass, twin generator).   pipe seedR seedM seedT K nx ny surv sigma q
+struct PSIS : public SIS {
+    PSIS(long K, ResLog* log, unsigned int n, std::unique_ptr<ParticleSetInitialization> i, std::unique_ptr<PFPrediction> p,
+         std::unique_ptr<PFCorrection> c, std::unique_ptr<Resampling> r)
+        : SIS(n, 4, std::move(i), std::move(p), std::move(c), std::move(r)), K_(K), log_(log) {}
+    bool run_condition() override { return static_cast<long>(step_number()) < K_; }
+    bool initialization_step() override { init_ok_ = SIS::initialization_step(); return init_ok_; }
+    void log() override { ++log_calls_; lw_.assign(cor_particle_.weight().data(), cor_particle_.weight().data() + cor_particle_.weight().size()); SIS::log(); }
+    void filtering_step() override {
+        *log_ = ResLog(); log_calls_ = 0; lw_.clear();
+        SIS::filtering_step();
+        const ParticleSet& c = cor_particle_; const ParticleSet& p = pred_particle_;
+        Out o; o.s("P");
+        o.n(c.components).n(c.dim_linear).n(c.dim_circular).n(c.state().cols()).n(c.state().rows()).n(c.weight().rows());
+        o.n(log_->called ? 1 : 0).d(log_->neff).n(log_->u1ok ? 1 : 0).d(log_->u1);
+        o.n(log_->parents.size()); for (int q : log_->parents) o.n(q);
+        for (long i = 0; i < c.weight().rows(); ++i) o.d(c.weight()(i));
+        for (long i = 0; i < c.state().cols(); ++i) o.d(c.state()(0, i));
+        o.n(log_->cw.size()); for (double v : log_->cw) o.d(v);
+        o.n(lw_.size()); for (double v : lw_) o.d(v);
+        o.n(p.weight().rows()); for (long i = 0; i < p.weight().rows(); ++i) o.d(p.weight()(i));
+        o.n(p.state().cols());
+        for (long i = 0; i < p.state().cols(); ++i) o.d(p.state()(0, i));
+        for (long i = 0; i < p.state().cols(); ++i) o.d(p.state()(2, i));
+        // the measurement the correction used and the likelihood it reports (queried twice: the answers must agree)
+        bool vm; Data dm; std::tie(vm, dm) = correction().getMeasurementModel().measure();
+        MatrixXd y = vm ? any::any_cast<MatrixXd>(dm) : MatrixXd(MatrixXd::Zero(2, 1));
+        o.n(vm ? 1 : 0).d(y(0, 0)).d(y(1, 0));
+        bool vl, vl2; VectorXd lk, lk2;
+        std::tie(vl, lk) = correction().getLikelihood();
+        std::tie(vl2, lk2) = correction().getLikelihood();
+        bool same = (vl == vl2) && lk.size() == lk2.size(); for (long i = 0; same && i < lk.size(); ++i) if (vh::hx(lk(i)) != vh::hx(lk2(i))) same = false;
+        o.n(vl ? 1 : 0).n(same ? 1 : 0).n(lk.size()); for (long i = 0; i < lk.size(); ++i) o.d(lk(i));
+        bool copies = true;
+        if (log_->called) {
+            copies = (long)log_->parents.size() == (long)c.state().cols();
+            for (long j = 0; copies && j < c.state().cols(); ++j) {
+                long q = log_->parents[j];
+                if (q < 0 || q >= log_->cor_state.cols()) { copies = false; break; }
+                MatrixXd a = c.state().col(j), bcol = log_->cor_state.col(q);
+                if (!vh::same_bits(a, bcol)) copies = false;
+            }
+        }
+        o.n(copies ? 1 : 0).n(log_calls_);
+        blocks.push_back(o.str());
+    }
+    long K_; ResLog* log_; bool init_ok_ = false; long log_calls_ = 0; std::vector<double> lw_; std::vector<std::string> blocks;
+};
+
+static std::string op_pipe(Toks& t) {
+    unsigned long seedR = t.nat(), seedM = t.nat(), seedT = t.nat(); long K = t.nat(), nx = t.nat(), ny = t.nat();
+    double surv = t.dbl(), sigma = t.dbl(), q = t.dbl(); t.done();
+    long n = nx * ny; ResLog log;
+    std::unique_ptr<ParticleSetInitialization> init(new InitSurveillanceAreaGrid(surv, surv, (unsigned int)nx, (unsigned int)ny));
+    std::unique_ptr<StateModel> wna(new WhiteNoiseAcceleration(WhiteNoiseAcceleration::Dim::TwoD, 1.0, q, (unsigned int)seedM));
+    std::unique_ptr<PFPrediction> pred(new DrawParticles(std::move(wna)));
+    std::unique_ptr<StateModel> target(new WhiteNoiseAcceleration(WhiteNoiseAcceleration::Dim::TwoD, 1.0, q, (unsigned int)seedT));
+    Vector4d x0(surv / 2.0, 0.0, surv / 3.0, 0.0);
+    std::unique_ptr<SimulatedStateModel> sim(new SimulatedStateModel(std::move(target), x0, (unsigned int)(K + 2)));
+    MatrixXd R(2, 2); R << sigma * sigma, 0.0, 0.0, sigma * sigma;
+    std::unique_ptr<MeasurementModel> sensor(new SimulatedLinearSensor(std::move(sim), SimulatedLinearSensor::LinearMatrixComponent{ 4, std::vector<std::size_t>{ 0, 2 } }, R));
+    std::unique_ptr<PFCorrection> corr(new BootstrapCorrection(std::move(sensor), std::unique_ptr<LikelihoodModel>(new GaussianLikelihood())));
+    std::unique_ptr<Resampling> res(new SResampling((unsigned int)seedR, n, &log));
+    PSIS f(K, &log, (unsigned int)n, std::move(init), std::move(pred), std::move(corr), std::move(res));
+    bool ok = f.boot(); f.run(); ok = f.wait() && ok;
+    Out o; o.s(ok ? "ok" : "thread-failed").n(f.init_ok_ ? 1 : 0).n(f.blocks.size());
+    for (auto& b : f.blocks) o.s(b);
     return o.str();
 }
 
@@ -472,6 +568,7 @@ int main() {
         if (op == "seq") { out = op_seq(t); return true; }
         if (op == "sis") { out = op_sis(t); return true; }
         if (op == "glik") { out = op_glik(t); return true; }
+        if (op == "pipe") { out = op_pipe(t); return true; }
         return false;
     });
 }
